@@ -542,8 +542,10 @@ def segments_stream(ctx, st, record):
         ctx.count('segments:' + ('single' if isinstance(segs, list) and len(segs) == 1 else 'multi'))
 
 
-def spectra_stream(ctx, st, record):
+def spectra_stream(ctx, st, record, table=None):
     rng = ctx.rng
+    kinds = {k['name']: k['binPsd'] for k in (table or {}).get('classes', [])}
+    const_cmd = 'specd' if kinds.get('ConstantSpectrum') == 'constDensity' else 'specc'
     C = classes()
     for it in range(ctx.n(600, 6000)):
         lo = rng.choice([1059.0, 1039.9, rng.uniform(200.0, 2000.0)])
@@ -559,7 +561,7 @@ def spectra_stream(ctx, st, record):
                 # same operations in the same order: exact comparison (this is where the model must reproduce the
                 # rounding of `wavelengths[0] - delta/2` against the support edge)
                 return None if m == wl + psd else 'model=%r impl=%r' % (m, wl + psd)
-            st.add(['specc %s %s %d' % (f2b(lo), f2b(hi), n)], judge, 'spectrum:constant', dict(min=lo, max=hi, bins=n))
+            st.add(['%s %s %s %d' % (const_cmd, f2b(lo), f2b(hi), n)], judge, 'spectrum:constant', dict(min=lo, max=hi, bins=n))
             record['traces'] += 1
             # S: range = support of the line  =>  bin powers sum to one, each bin = width * density
             tot = sum(p * d for p in psd)
@@ -905,7 +907,7 @@ def run(ctx):
     erf_stream(ctx, st, record)
     import traceback
     for name, fn in (('targeted', lambda: targeted(ctx, st, record, exp)), ('histories', lambda: histories(ctx, st, record)),
-                     ('segments', lambda: segments_stream(ctx, st, record)), ('spectra', lambda: spectra_stream(ctx, st, record)),
+                     ('segments', lambda: segments_stream(ctx, st, record)), ('spectra', lambda: spectra_stream(ctx, st, record, table)),
                      ('integrals', lambda: integrals(ctx))):
         try:
             fn()
